@@ -523,7 +523,7 @@ func (sm *shardManagerImpl) UnregisterShard(clientShardID history.ClusterShardID
 		// Update metrics after local shards change
 		sm.mutex.Unlock()
 
-		sm.removeLocalShard(clientShardID)
+		// The entry is already gone; deleting it again after re-locking would wipe a registration made in between.
 		sm.broadcastShardChange("unregister", clientShardID)
 
 		// Trigger memberlist metadata update to propagate NodeMeta to other nodes
